@@ -153,7 +153,23 @@ func TestScopingPrograms(t *testing.T) {
 func TestFactoryAndIteratorTemplates(t *testing.T) {
 	vt.Check(t, vt.N(1500, 100000), func(rt *rapid.T) {
 		var lines, want []string
-		switch rapid.IntRange(0, 3).Draw(rt, "template") {
+		switch rapid.IntRange(0, 4).Draw(rt, "template") {
+		case 4:
+			// keyword parameters whose names start with `_`, beside an outer variable of the same name
+			v, d, p := rapid.IntRange(0, 99).Draw(rt, "outer"), rapid.IntRange(100, 199).Draw(rt, "default"), rapid.IntRange(200, 299).Draw(rt, "passed")
+			name := rapid.SampledFrom([]string{"_k", "__", "_private1", "_x?"}).Draw(rt, "name")
+			kind := rapid.SampledFrom([]string{"{|x, %[1]s: %[2]d| [x, %[1]s]}", "{|x, q: 1, %[1]s: %[2]d| [x, %[1]s]}", "m{|x, %[1]s: %[2]d| [x, %[1]s]}"}).Draw(rt, "kind")
+			lines = append(lines, fmt.Sprintf("%s := %d", name, v), "f := "+fmt.Sprintf(kind, name, d))
+			call := "f(1%s)"
+			if strings.HasPrefix(kind, "m{") {
+				lines = append(lines, "o := {m: f}")
+				call = "o.m(1%s)"
+				lines = append(lines, fmt.Sprintf(call, "")+"[1].p", fmt.Sprintf(call, fmt.Sprintf(", %s: %d", name, p))+"[1].p", fmt.Sprintf(call, fmt.Sprintf(", **{%s: %d}", name, p))+"[1].p", name+".p")
+				want = append(want, fmt.Sprint(d), fmt.Sprint(p), fmt.Sprint(p), fmt.Sprint(v))
+			} else {
+				lines = append(lines, fmt.Sprintf(call, "")+".p", fmt.Sprintf(call, fmt.Sprintf(", %s: %d", name, p))+".p", fmt.Sprintf(call, fmt.Sprintf(", **{%s: %d}", name, p))+".p", name+".p")
+				want = append(want, fmt.Sprintf("[1, %d]", d), fmt.Sprintf("[1, %d]", p), fmt.Sprintf("[1, %d]", p), fmt.Sprint(v))
+			}
 		case 0:
 			// factory with a keyword default computed from the factory's parameter, in several spellings
 			def := rapid.SampledFrom([]struct {
